@@ -196,7 +196,7 @@ impl Property for C04 {
         let mut f = Features::draw(&mut cfg_rng);
         f.subsume = cfg_rng.chance(1, 3);
         f.delete = cfg_rng.chance(1, 4);
-        f.containers = cfg_rng.chance(1, 4);
+        f.containers = cfg_rng.chance(1, 3);
         f.pushpop = cfg_rng.chance(1, 3);
         f.nomerge = cfg_rng.chance(1, 3);
         f.functions = true;
@@ -231,6 +231,10 @@ impl Property for C04 {
         case.cfg.insert("flaky_fail_at".into(), json!(fails));
         if index % 10 == 9 {
             draw_threaded(&mut case, &mut cfg_rng);
+            draw_knobs(&mut case, &mut cfg_rng);
+        } else if cfg_rng.chance(1, 2) {
+            // size-dependent rebuild paths (incremental table / container rebuild,
+            // rehash thresholds) forced or forbidden on small databases
             draw_knobs(&mut case, &mut cfg_rng);
         }
         case
